@@ -75,7 +75,8 @@ FreeCalls ==
     \cup {Call("text", s, 0, r, X) : s \in Elems, r \in Nodes \cup {0}}
     \cup {Call("reparent", s, c, 0, <<>>) : s \in Elems, c \in Elems}
     \cup {Call("clone", s, cl.next, 0, <<>>) : s \in {s \in Elems : Room(1)}}
-    \cup {SetAttrCall(s, PlainA(N_id, X)) : s \in {s \in Elems : E.nd[s].a = <<>>}}          \* shows attribute dicts shared between clones
+    \cup {AttrsCall(s, <<PlainA(N_href, X)>>) : s \in {s \in Elems : E.nd[s].a = <<>>}}
+    \cup {SetAttrCall(s, PlainA(N_id, X)) : s \in {s \in Elems : KeyIndex(E.nd[s].a, <<"", N_id>>, 1) = 0}}   \* would show attribute dicts shared by clones
 FreeOK(c) ==
     CASE c.op \in {"append", "before"} -> c.s # c.c /\ NoCycle(c.s, c.c) /\ (c.op = "before" => c.r # c.c)
       [] c.op = "remove"   -> c.s # c.c
@@ -109,7 +110,8 @@ ThmNoTypeError == CheckNoTypeError => E.exc # "TypeError"          \* switched o
 \* compact primitive log: <<op, s, c, r, d, k, ns, n, a, p, q>>
 LogView(c) == <<c.op, c.s, c.c, c.r, c.d, c.k, c.ns, c.n, c.a, c.p, c.q>>
 Snap(w, S) == [rows |-> [n \in 1..(Len(S.nd)) |-> RowOf(w, S, n)], ats |-> [n \in 1..(Len(S.nd)) |-> AttrsOf(w, S, n)],
-               exc |-> S.exc, log |-> [i \in 1..Len(S.log) |-> LogView(S.log[i])]]
+               exc |-> S.exc, log |-> [i \in 1..Len(S.log) |-> LogView(S.log[i])],
+               abs |-> AbsOf(w, S, 1).c]                \* what harness/treeproj.py must read off the real document
 \* (the dom log is left out when it equals the etree log: samelog)
 ThmExport == Export => PrintT(ToJson([mode |-> Mode, nsOn |-> NsOn, hist |-> hist, e |-> Snap("E", E),
                                       d |-> IF D.log = E.log THEN [Snap("D", D) EXCEPT !.log = <<>>] ELSE Snap("D", D),
